@@ -2,6 +2,8 @@ import Orx.KSRun
 import Orx.IW.Outs
 import Orx.IW.FullLoops
 import Orx.GenThms.ProtoSimBuf
+import Orx.GenThms.Loops
+import Orx.KSLoops
 /-! # C12 for_each / enumerate_for_each / fold visit every element exactly once -/
 namespace Orx.Props.C12
 open Orx Orx.KS
@@ -121,5 +123,61 @@ example : IWF.Below lpS lpSched (IWF.init lpProgs) ∧
 theorem source_buffered_request_is_the_translated_function (F : Nat) (buf : List (Option Nat)) (l : Bool) :
     GenThms.Proto.reqTreeB F buf = GenThms.Proto.treeAtB F F buf (.resv (.buffered buf.length l)) :=
   GenThms.Proto.reqTreeB_eq F buf l
+
+
+/-! ## The default loops as in the source (`default_fns/for_each.rs`, `default_fns/fold.rs`, translated on every run) -/
+section SourceLoops
+open Orx.RSL Orx.GenL Orx.GenThms.Loops
+
+/-- **`for_each`, `enumerate_for_each` and `fold` as translated from the source are the model's loops** — for every length
+(`< 2^64`), every chunk size `≥ 1` (1 takes the one-by-one path, `> 1` the buffered path), every fuel: each iteration is one
+pull (`fetch_add(1)` resp. `fetch_add(n)`), the closure is called on exactly the positions that pull handed out, in order,
+with the source position as index in the enumerated form, `fold` threads its accumulator through exactly those calls, and
+the loop returns precisely when a pull reads a counter value at or beyond the length — i.e. with the iterator exhausted. -/
+theorem source_loops_are_model_loops {ρ' : Type} (len n fuel : Nat) (hn : 0 < n) (hw : len < W) :
+    (∀ f, (Loops.for_each fuel ⟨len⟩ n f : PF ρ' Unit) = specLoop len n false fuel) ∧
+    (∀ f, (Loops.for_each_with_ids fuel ⟨len⟩ n f : PF ρ' Unit) = specLoop len n true fuel) ∧
+    (∀ f neutral, (Loops.fold fuel ⟨len⟩ n f neutral : PF ρ' Nat) = specFold len n f.g fuel neutral) :=
+  ⟨fun f => for_each_is_model_loop len n fuel f hn, fun f => for_each_with_ids_is_model_loop len n fuel f hn hw,
+   fun f neutral => fold_is_model_loop len n fuel neutral f hn⟩
+
+/-- the trait methods hand their arguments to these functions unchanged -/
+theorem source_loops_dispatch : Loops.dispatch =
+    [("for_each", "default_fns::for_each::for_each(self,chunk_size,fun)"),
+     ("enumerate_for_each", "default_fns::for_each::for_each_with_ids(self,chunk_size,fun)"),
+     ("fold", "default_fns::fold::fold(self,chunk_size,fold,neutral)")] := dispatch_as_expected
+
+/-- **the model's loop step is the tree's node** (`KSLoops.lean`): the theorems above about runs of `KS.step` (`visitAll_visits`,
+`loop_returns_exhausted`, `all_visited_once`) are therefore statements about the translated loops: a thread of the model at
+pc `.loop` performs, step by step, exactly the pulls and closure calls of a path through `specLoop`. -/
+theorem model_loop_step_is_tree_node (s : KSrc) (t : Nat) (c : KS.Cfg) (o : SOp) (visits sum n : Nat) (w : Bool) (pa : Option Nat)
+    (hpc : (c.th t).pc = .loop o visits sum) (hlp : KS.loopParams o.op = some (n, w, pa, false)) (fuel : Nat) :
+    if c.ctr o.slot < s.len then
+      (KS.step s t c).2.filterMap KS.visitOf =
+        (KS.walk pa (visitSeq w (pulled s.len n (c.ctr o.slot)) (specLoop (ρ := Unit) s.len n w fuel)) visits).1.map
+          (fun ip => (ip.1, s.valAt ip.2)) ∧
+      ((∃ sum', (((KS.step s t c).1).th t).pc = .loop o
+          (KS.walk pa (visitSeq w (pulled s.len n (c.ctr o.slot)) (specLoop (ρ := Unit) s.len n w fuel)) visits).2.1 sum' ∧
+        (KS.walk pa (visitSeq w (pulled s.len n (c.ctr o.slot)) (specLoop (ρ := Unit) s.len n w fuel)) visits).2.2 = specLoop s.len n w fuel) ∨
+       ((((KS.step s t c).1).th t).pc = .dead ∧
+        (KS.walk pa (visitSeq w (pulled s.len n (c.ctr o.slot)) (specLoop (ρ := Unit) s.len n w fuel)) visits).2.2 = .panic "closure"))
+    else (((KS.step s t c).1).th t).pc = .idle ∧ (KS.step s t c).2.filterMap KS.visitOf = [] :=
+  KS.loop_step_is_tree_node s t c o visits sum n w pa hpc hlp fuel
+
+/-- non-vacuity: the tree of `for_each` with chunk size 2 over 3 elements, along the path on which this thread's pulls read
+0 and then 4: two closure calls (positions 0 and 1), then the return -/
+example : (match (Loops.for_each 5 ⟨3⟩ 2 {} : PF Unit Unit) with
+    | .faa _ n k => (n, match k 0 with
+      | .visit none p k1 => (p, match k1 false with
+        | .visit none p2 k2 => (p2, match k2 false with
+          | .faa _ _ k3 => (match k3 4 with | .ret _ => true | _ => false)
+          | _ => false)
+        | _ => (99, false))
+      | _ => (99, 99, false))
+    | _ => (99, 99, 99, false)) = (2, 0, 1, true) := by
+  rw [for_each_is_model_loop 3 2 5 {} (by omega)]
+  decide
+
+end SourceLoops
 
 end Orx.Props.C12
